@@ -54,6 +54,8 @@ def run(chk, replay=None):
         x = x.subs(ss.sympy, R_(sp))
         return common.gauss_rational(S.simplify(x))
 
+    conv_budget = [8 if quick else 120]
+
     def one_case(case):
         nonlocal n_cex
         if any(l.split()[0][:2] in ('TR', 'AM', 'GY') or l.split()[0][0] in 'KW' for l in case['lines']):
@@ -100,6 +102,33 @@ def run(chk, replay=None):
             chk.counterexample({'kind': 'thevenin-norton-consistency'},
                                {'input': key_in, 'lcapy': {'Voc': str(Voc), 'Z': str(Z), 'Isc': str(Isc), 'Y': str(Y)},
                                 'spec': 'Voc = Isc Z and Z Y = 1'}, 'Thevenin and Norton models are not equivalent')
+        # (a') the models do not depend on the convention chosen for REPORTING currents (hybrid, active): Isc is the
+        #      current the port delivers into a short from p to m whatever sign convention component currents are shown in
+        if conv_budget[0] > 0:
+            conv_budget[0] -= 1
+            for cv in ('hybrid', 'active'):
+                try:
+                    state.current_sign_convention = cv
+                    c_cv = lcapy.Circuit(text)
+                    no_cv = c_cv.norton(p, m)
+                    th_cv = c_cv.thevenin(p, m)
+                    Isc_cv = at(no_cv.Isc.laplace(), sp, subs)
+                    Voc_cv = at(th_cv.Voc.laplace(), sp, subs)
+                    Z_cv = at(th_cv.Z, sp, subs)
+                except Exception as e:   # noqa
+                    chk.count('lcapy-error', 'convention:' + type(e).__name__)
+                    continue
+                finally:
+                    state.current_sign_convention = 'passive'
+                chk.count('oracle', 'models-under-%s' % cv)
+                if None not in (Isc_cv, Voc_cv, Z_cv) and (Isc_cv != Isc or Voc_cv != Voc or Z_cv != Z or cmul(Isc_cv, Z_cv) != Voc_cv):
+                    n_cex += 1
+                    chk.counterexample({'kind': 'thevenin-norton-consistency', 'convention': cv},
+                                       {'input': dict(key_in, current_sign_convention=cv),
+                                        'lcapy': {'Voc': str(Voc_cv), 'Z': str(Z_cv), 'Isc': str(Isc_cv), 'passive': {'Voc': str(Voc), 'Z': str(Z), 'Isc': str(Isc)}},
+                                        'spec': 'Voc = Isc Z, and the models are the same under every current sign convention'},
+                                       'Thevenin/Norton models change with current_sign_convention=%s' % cv)
+                    break
         # (b) no initial-condition symbols/values leak into Z: compare with the IC-free circuit
         try:
             l_noic = []
@@ -268,12 +297,29 @@ def run(chk, replay=None):
             net = (net + q) if top == 'ser' else (net | q)
         return net
 
+    def directed_net(i):
+        """a source with a network whose total immittance is purely inductive / capacitive / resistive (the forms for which
+        the models are built by `.cpt()` from k/s, k*s, k), single and combined elements"""
+        a = R_(Fraction(rng.randint(2, 9), rng.randint(1, 3)))
+        a2 = R_(Fraction(rng.randint(2, 9), rng.randint(1, 3)))
+        b = R_(Fraction(rng.randint(1, 9), rng.randint(1, 3)) * rng.choice([1, -1]))
+        X = [lcapy.L, lcapy.C, lcapy.R][i % 3]
+        form = (i // 3) % 4
+        if form == 0:
+            return lcapy.Vstep(b) + X(a)
+        if form == 1:
+            return lcapy.Istep(b) | X(a)
+        if form == 2:
+            return lcapy.Vstep(b) + X(a) + X(a2)
+        return lcapy.Vstep(b) + (X(a) | X(a2))
+
     nnets = 14 if quick else 200
-    for k in range(nnets):
+    ndirected_nets = 12 if quick else 48
+    for k in range(nnets + ndirected_nets):
         sp = Fraction(rng.randint(1, 9), rng.randint(2, 5))
         try:
             with common.time_limit(20):
-                net = tree(1, rng.choice(['ser', 'par']))
+                net = directed_net(k) if k < ndirected_nets else tree(1, rng.choice(['ser', 'par']))
                 desc = str(net)
                 Voc0 = at(net.Voc.laplace(), sp, {})
                 Z0 = at(net.Z, sp, {})
